@@ -14,6 +14,13 @@ TEXT = {
  "C09": ("proof", "affine_conditional_transformation == information-form posterior (precision, gain, offset, log-det; Sigma is the inverse of exactly the returned precision by value number) for every class x batch configuration. Round-trip invertibility (Woodbury) is not decided."),
  "C10": ("proof", "set_y(y).evaluate_ln(x) == ln N(y; Mx+b, Sigma) incl. normaliser with dim(Sigma)=Dy, contexts R=1/N and R=N, all linear classes; returned factor is a batch of N (field leading sizes, product()). Known finding F1 (Dx for Dy) is reported as KNOWN-FINDING."),
  "C13": ("proof", "entropy and KL equal Wick-generated expectations of log-densities (R/R, R/1, 1/R); conditional entropy and mutual information of every conditional class x batch configuration equal the closed forms (sign included). Non-negativity follows from the closed forms (not separately decided)."),
+ "C04": ("proof", "Representation invariant (Sigma*Lambda=I, ln_det_Sigma=-ln_det_Lambda=LnDet, mu=Sigma nu, lnZ=Gaussian normaliser; conditionals: Sigma*Lambda=I, ln det) proved for the result of every public operation in the API table (~550 operation x class x context entries) assuming it for the operands: induction over operation histories of any length. Operands: only empty cache fields may be written, with invariant-consistent values (query purity). Sherman-Morrison by clearing denominators (rule 8), determinant lemma and the block-determinant theorem as axioms. Heteroscedastic Woodbury inverse is unclaimed."),
+ "C12": ("proof", "Batch parametricity: for every public operation x class x batch context, every tensor in the result's normal form that carries an operand's component index carries exactly the result's component index in the documented position (never summed / pinned) - parametric functions commute with slicing for every index array; well-formed batches; slice()/update() field exhaustiveness. jnp.take semantics for repeated/negative indices is library contract (trusted). Known findings F9 (slice inherited by approximate / NN-control classes)."),
+ "C14": ("proof", "integrate('log u(x)') for every factor kind x batch, integrate_log_conditional(q) and integrate_log_conditional_y(p_x)(y) (callable and evaluated) of the linear / diagonal / identity-mean conditionals equal Wick-generated expectations for an arbitrary Gaussian q. NN-control by delegation (C15). RBF / squared-exponential feature models are not decided."),
+ "C15": ("proof", "Sibling agreement by specialisation: rank-one / linear / constant / low-rank factor products vs the general ConjugateFactor with the same parameters; identity-mean classes vs the general class with M=I, b=0 for every overridden method x batch context; NN-controlled conditional vs the general class with M(u), b(u) = documented split of the network output; diagonal inverse only used in diagonal classes (its body is proved equal to the general inverse under the diagonal precondition in C02)."),
+ "C16": ("other", "PARTIAL: moment ASSEMBLY of the approximate conditionals is proved (E[y], Cov[y], E[yx'] as polynomials in kernel / noise expectations computed by independent reference formulas: product-measure mass/mean, Sherman-Morrison for rank-one kernels, closed-form E exp(+-h)); joint / marginal / conditional built from exactly those moments; unit-height kernels; feature read-out; heteroscedastic conditional covariance and link wiring. NOT decided: step / rectified-linear links (vmap + truncated moments), and that each expectation equals the true integral of the non-linear model (quadrature-level)."),
+ "C18": ("other", "PARTIAL: static protocol clauses only - jax.* names resolve in the installed jax (sources parsed, not imported); pytree flatten/unflatten closure over instance attributes; constructor idempotence; non-array fields not traced; to_dict/from_dict key agreement; no array value in Python control flow on any interpreted path of the API table (with a synthetic positive example); while_loop results behind stop_gradient. NOT decided: numerical agreement of jit/vmap/grad with eager execution."),
+ "C20": ("other", "PARTIAL: dispatch table, support indicator (conjunction of both bounds, element-wise and broadcast), degree-one homogeneity of integrate('1'|'x'|'x**2') in the base mass, normalised variant == normalised base density * indicator / truncated mass and integrates to one (finite generic limits). NOT decided: cdf/pdf closed forms, x**k recursion (lax.scan), infinite limits, tail accuracy, additivity."),
  "C19": ("proof", "sample(key,n) == mu[None] + Chol(Sigma)[r,:,c] z[m,r,c] with z = jax.random.normal(key,(n,R,D)): contraction over the Cholesky column index, per-component pairing, output axes (n,R,D), exactly one PRNG head on the caller's key (deterministic in the key). Statistical moments are not decided."),
 }
 TECH = "static analysis: AST abstract interpretation in a shape x layout x Einstein-normal-form (algebraic value numbering) x effect domain; verdict = syntactic identity of normal forms / shape-layout rules"
